@@ -8,6 +8,7 @@
     verif_unit = "convert_shapes",
     verif_unit = "convert_keys",
     verif_unit = "convert_keys_t",
+    verif_unit = "depth",
 ))]
 
 use super::{convert, Convert, Epoch};
@@ -448,4 +449,48 @@ mod keys {
 
     #[cfg(verif_replay)]
     include!("/verif/.cache/replay/convert_value__verif__keys.rs");
+}
+
+// ---------------------------------------------------------------------------------------------
+// the converter's nesting counter for every parent depth (symbolic); see deserializer.rs
+// ---------------------------------------------------------------------------------------------
+#[cfg(any(verif_unit = "all", verif_unit = "depth"))]
+mod depth {
+    use super::*;
+
+    #[kani::proof]
+    #[kani::unwind(6)]
+    fn q_c13_depth_constructor() {
+        let d: u8 = kani::any();
+        kani::assume(d <= 32);
+        let arr = [0u8];
+        let mut rd: &[u8] = &arr;
+        let mut dst = BytesMut::new();
+        match Convert::new(&mut rd, &mut dst, Epoch::V1, d) {
+            Ok(c) => assert!(d <= 31 && c.depth == d + 1),
+            Err(e) => assert!(d == 32 && e == ValueConversionError::Deserialize(DeserializeError::TooDeeplyNested)),
+        }
+    }
+
+    /// every nesting step of the converter goes through `convert_next` or an inline
+    /// `Convert::new(src, dst, epoch, self.depth)`: the child is one level deeper. With a leaf child
+    /// (`None`, one byte) the step succeeds iff parent + 1 <= 32.
+    #[kani::proof]
+    #[kani::unwind(6)]
+    fn q_c13_depth_convert_next() {
+        let d: u8 = kani::any();
+        kani::assume(d >= 1 && d <= 32);
+        let arr = [ValueKind::None as u8];
+        let mut rd: &[u8] = &arr;
+        let mut dst = BytesMut::new();
+        let mut c = Convert { src: &mut rd, dst: &mut dst, epoch: Epoch::V1, depth: d };
+        let r = c.convert_next();
+        match r {
+            Ok(()) => assert!(d < 32),
+            Err(e) => assert!(d == 32 && e == ValueConversionError::Deserialize(DeserializeError::TooDeeplyNested)),
+        }
+    }
+
+    #[cfg(verif_replay)]
+    include!("/verif/.cache/replay/convert_value__verif__depth.rs");
 }
